@@ -89,6 +89,8 @@ type c05World struct {
 	ids        map[string]*c05Ident
 	byFull     map[string]*c05Ident
 	byPub      map[string]*c05Ident
+	pool       *cert.CAPool // trusted CA, K blocklisted (read-only after minting: shared by every machine's verifier)
+	plain      *cert.CAPool // trusted CA, nothing blocklisted
 }
 
 func (w *c05World) name() string { return fmt.Sprintf("%s/%s", w.curve, w.cipher) }
@@ -157,6 +159,8 @@ func c05Mint(curve cert.Curve, cipher string, ca cert.Certificate, caKey []byte,
 	wi := w.ids["W"]
 	wi.priv, wi.holdsKey = other.priv, false
 	wi.cred = handshake.NewCredential(wi.crt, wi.hsb, wi.priv, ncs)
+	w.pool, w.plain = ct.NewTestCAPool(ca), ct.NewTestCAPool(ca)
+	w.pool.BlocklistFingerprint(w.ids["K"].fp)
 	return w, nil
 }
 
@@ -543,8 +547,7 @@ func c05ErrClass(err error) string {
 func c05NewSim(c *mc.Check, st *c05Stats, w *c05World, cast []c05Role, muts []c05Mut, vars []c05Variant) *c05Sim {
 	s := &c05Sim{c: c, st: st, tl: c05Tally{st: st}, w: w, now: vtime.Epoch, cast: cast, muts: muts, vars: vars}
 	s.tr = c05Trust{blocked: map[string]bool{w.ids["K"].fp: true}}
-	s.pool = ct.NewTestCAPool(w.ca)
-	s.pool.BlocklistFingerprint(w.ids["K"].fp)
+	s.pool = w.pool
 	for i, r := range cast {
 		mm := &c05Mach{idx: i, id: w.ids[r.id], init: r.init, status: "idle", sent: -1}
 		idx := uint32(0x0c050000 + 0x101*(i+1))
@@ -1329,7 +1332,7 @@ func (n *c05Net) label(e c05NEv) string {
 }
 
 func (n *c05Net) stubMachine(id *c05Ident, initiator bool, idx uint32) *handshake.Machine {
-	pool := ct.NewTestCAPool(n.w.ca)
+	pool := n.w.plain
 	mach, err := handshake.NewMachine(cert.Version2, id.get, func(c cert.Certificate) (*cert.CachedCertificate, error) {
 		return pool.VerifyCertificate(vtime.Now(), c)
 	}, func() (uint32, error) { return idx, nil }, initiator, header.HandshakeIXPSK0)
@@ -1927,11 +1930,12 @@ func TestVerifC05(t *testing.T) {
 	c.Set("machine_casts_searched_to_closure", castsDone)
 	c.Set("machine_closure_depth", closureDepth)
 	c.Set("machine_depth1_mutants", depth1)
-	c.Set("machine_histories", st.histories.Load())
-	c.Set("machine_deliveries", st.deliver.Load())
-	c.Set("machine_results_judged", st.results.Load())
+	c.Set("histories_executed", st.histories.Load())
+	c.Set("deliveries_judged", st.deliver.Load())
+	c.Set("completions_judged", st.results.Load())
 	c.Set("mutation_alphabet", len(muts))
 	c.Set("adversary_variants", len(vars))
+	c.Set("worlds", len(worlds))
 	st.mu.Lock()
 	outc := map[string]int64{}
 	for k, v := range st.n {
@@ -1940,5 +1944,84 @@ func TestVerifC05(t *testing.T) {
 	st.mu.Unlock()
 	c.Set("outcomes", outc)
 	c.Set("distinct_outcomes", len(outc))
-	_ = capped
+	c.Set("explanation", "part 1: one closure search (BFS by replay, parallel) per cast of handshake.Machines, a state = (per machine: idle/initiated/failed/done(reported peer, via whom); pool of produced stage-2 messages by (producer, stage 1 consumed, exact body?)), rejected deliveries leave the state unchanged so each search closes; plus every truncation length and every bit of both genuine messages at depth 1. part 2: BFS by replay (serial) over two real nodes and stub identities, a state = hostmap views of V and B (peer identity, role, addresses), pending tables, wire pool, clock phase. transitions = real ProcessPacket / readOutsidePackets / StartHandshake calls; every count in `outcomes` counts explored transitions (prefix replays are not counted).")
+	c.Assume("the trust check is read as: the certificate is one that was actually issued (byte-identical to a minted certificate), by the trusted CA, inside the validity windows of certificate and CA at the (virtual) time of completion, and not blocklisted by the verifying party; signature/AEAD/DH unforgeability beyond the enumerated mutants is assumed")
+	c.Assume("IX: the responder completes on stage 1, before the initiator has proved possession of its static key; 'the static public key the peer proved it holds' is therefore read, on the responder side, as the static key transmitted in the Noise exchange (a replayed or re-assembled stage 1 carrying A's key and A's certificate completes reporting A; whoever lacks A's private key cannot use the resulting keys — checked at manager level). On the initiator side it is the key of the party that produced exactly the consumed bytes")
+	c.Assume("version-2 certificates only; part 2 uses X25519/AES-GCM (the shared E4 PKI); datagrams the nodes emit other than handshakes are dropped; M's crafted messages are delivered once and are not themselves replayed or mutated")
+	c.Assume("starting a machine/initiator commutes with all other events, so part 1 fixes the cast of machines at the root of each search instead of interleaving 'start session' events")
+	if st.viol.Load() > 0 || capped || c.OutOfTime() {
+		return // vacuity guards need the whole box
+	}
+	sum := func(pred func(k string) bool) (n int64) {
+		for k, v := range outc {
+			if pred(k) {
+				n += v
+			}
+		}
+		return
+	}
+	has := func(sub ...string) int64 {
+		return sum(func(k string) bool {
+			for _, x := range sub {
+				if !strings.Contains(k, x) {
+					return false
+				}
+			}
+			return true
+		})
+	}
+	// honest sessions complete, on both sides, and the keys pair
+	c.Require(outc["completed: initiator honest with honest"] > 0 && outc["completed: responder honest with honest"] > 0, "honest sessions do not complete")
+	c.Require(outc["pairing verified: honest initiator with honest responder"] > 0 && outc["pairing verified: initiator with M"] > 0, "key pairing never verified")
+	// every bad identity is really refused, in both roles, for the right reason
+	for id, why := range map[string]string{"X": "expired", "U": "unknown CA", "K": "blocklisted"} {
+		for _, role := range []string{"initiator", "responder"} {
+			c.Require(outc["verifier: certificate of "+id+" presented to a "+role+" -> "+why] > 0, "identity %s never refused (%s) by a %s", id, why, role)
+		}
+		c.Require(has("completed:", "with "+id) == 0, "identity %s completed", id)
+		c.Require(has("manager: stub "+id+" sends a stage 1", "-> 0 new") > 0 && has("manager: stub "+id+" sends a stage 1", "-> 1 new") == 0, "manager: stub %s not refused as initiator", id)
+		c.Require(has("manager: stub "+id+" answers", "-> 0 new") > 0 && has("manager: stub "+id+" answers", "-> 1 new") == 0, "manager: stub %s not refused as responder", id)
+	}
+	c.Require(has("verifier: certificate of Y", "-> ok") > 0 && has("verifier: certificate of Y", "-> expired") > 0, "Y (expires at Epoch+1h) not seen both valid and expired")
+	c.Require(has("manager: stub Y sends a stage 1 ->", "1 new") > 0 && has("manager: stub Y sends a stage 1 (late)", "-> 0 new") > 0 && has("manager: stub Y sends a stage 1 (late)", "-> 1 new") == 0, "manager: Y not accepted early / refused late")
+	c.Require(has("completed: initiator W") == 0 && has("completed:", "with W") > 0, "W (certificate without its private key): expected to be reported by responders and never to complete itself")
+	// the adversary: accepted as itself, refused with anybody else's certificate
+	for _, v := range vars {
+		if !v.rep {
+			continue
+		}
+		switch {
+		case v.legit:
+			c.Require(outc["M stage 1 ["+v.label+"] -> completed"] > 0 && has("M stage 2 ["+v.label+"]", "own stage 1 -> completed") > 0, "M as itself is not accepted")
+			c.Require(has("manager: M sends a stage 1 ["+v.label+"]", "-> 1 new") > 0 && has("manager: M answers V's stage 1 ["+v.label+"] ->", "1 new") > 0, "manager: M as itself is not accepted")
+		case v.pubOf == "M":
+			c.Require(has("M stage 1 ["+v.label+"] -> refused") > 0 && has("M stage 1 ["+v.label+"] -> completed") == 0, "M stage 1 %q not refused", v.label)
+			c.Require(has("M stage 2 ["+v.label+"]", "own stage 1 -> refused") > 0 && has("M stage 2 ["+v.label+"]", "-> completed") == 0, "M stage 2 %q not refused", v.label)
+			c.Require(has("manager: M sends a stage 1 ["+v.label+"]", "-> 0 new") > 0 && has("manager: M answers V's stage 1 ["+v.label+"]", "-> 0 new") > 0, "manager: M %q never tried", v.label)
+		default:
+			c.Require(has("M stage 2 ["+v.label+"]", "own stage 1 -> refused") > 0 && has("M stage 2 ["+v.label+"]", "-> completed") == 0, "M stage 2 %q not refused", v.label)
+		}
+	}
+	// reordering / replay / cross-session really happen
+	c.Require(has("deliver [", "cross-session") > 0, "no cross-session delivery at Machine level")
+	c.Require(has("cross-session -> completed") == 0, "a cross-session stage 2 completed without being flagged")
+	c.Require(has("manager: cross-session") > 0, "no cross-session delivery at manager level")
+	c.Require(outc["deliver [raw] stage 1 to responder genuine/replayed stage 1 -> completed"] > 0 && has("deliver [raw] stage 2 to initiator -> completed") > 0, "genuine deliveries do not complete")
+	classes := map[string]bool{}
+	for _, mu := range muts {
+		classes[mu.class] = true
+	}
+	for cl := range classes {
+		c.Require(has("deliver ["+cl+"] stage 1 to responder") > 0 || strings.HasPrefix(cl, "splice: e"), "mutation class %q never delivered to a responder", cl)
+		c.Require(has("deliver ["+cl+"] stage 2 to initiator") > 0, "mutation class %q never delivered to an initiator", cl)
+	}
+	// manager level: honest tunnels appear on both sides and in both roles, keys pair
+	for _, x := range []string{"V (initiator side) for peer B", "V (responder side) for peer B", "B (responder side) for peer V", "V (initiator side) for peer C", "V (responder side) for peer C", "V (initiator side) for peer M", "V (responder side) for peer M"} {
+		c.Require(outc["manager: new hostmap entry on "+x] > 0, "manager: never saw a new hostmap entry on %s", x)
+	}
+	for _, x := range []string{"V and B", "V and C", "V and M"} {
+		c.Require(outc["manager: pairing verified between "+x] > 0, "manager: key pairing between %s never verified", x)
+	}
+	c.Require(outc["manager: M cannot use the tunnel created with a static key it holds no private key for"] > 0, "manager: replayed-identity stage 1 never tried")
+	c.Require(len(outc) >= 100, "only %d distinct outcomes", len(outc))
 }
